@@ -333,6 +333,9 @@ func ruleText() string {
 		"Reset/Remove/Add/Sync/Connect/ConnectError/UpdateMetadata/UpdateSize, monotone clock, future threshold in {0,2}); " +
 		"the same with 1..4 STREAM subscribers (single target or *) attached at random points, half of them with the initial walk and a " +
 		"Cache.Remove forced between registration and walk (hook process:before-walk). " +
+		"nested: 2..3 STREAM subscribers of one target on nested / sibling subscription paths (a, a/b, a/c, a/b/x, d, whole target, *) disconnecting in " +
+		"every order before an update / device delete / Reset / Remove; backlog: subscribers whose Send is blocked while updates queue up, then " +
+		"Reset / Remove / device delete / re-Add, then the release; " +
 		"atomicity of [mutate; announce]: a call X (Remove / Reset / update / delete / Sync / Connect) parked inside its first cache.Now() or inside its " +
 		"first feed callback while calls Y (Add+update, update, delete, Reset, Remove, update of another target) run on a second goroutine " +
 		"against the same name, every X x park point x Y; " +
@@ -363,4 +366,5 @@ func generate(e *emitter, o vh.Opts) {
 		e.add(randomCase(r.Fork(), true, 10))
 	}
 	generateConc(e, o, r.Fork())
+	generateSubs(e, o, r.Fork())
 }
